@@ -97,7 +97,7 @@ class NonceMonitor(Monitor):
         return (len(self.violations),)
 
 
-STEPS = ["small", "best", "retry", "frag", "burst40", "idle0.5", "idle3", "long0.3", "long1.2", "stream", "fastloop", "skick"]
+STEPS = ["small", "best", "retry", "frag", "burst40", "idle0.5", "idle3", "long0.3", "long1.2", "stream", "fastloop", "skick", "rehello"]
 
 
 def do_step(w, dm, step):
@@ -138,6 +138,20 @@ def do_step(w, dm, step):
                 app_send(w, dm, "c", MARK + b"f", "none")
             w.tick(dt=0.001)
         w.fates = saved
+    elif step == "rehello":
+        # a client starts a new handshake INSIDE the running session (its hello travels sealed) while the server has
+        # application data queued and awaiting retry: that data stays sealed whatever the server answers
+        app_send(w, dm, "s", MARK + b"pending-best", "best")
+        w.run(1)
+        app_send(w, dm, "s", MARK + b"queued-none", "none")
+        app_send(w, dm, "s", MARK + b"queued-retry", "retry")
+        c = w.clients[0].conn
+        if c is not None:
+            try:
+                c._sendClientHello()
+            except Exception:
+                pass
+        w.run(12)
     elif step == "skick":
         # the SERVER closes the session while the client still has a fragmented upload and unacked retry-mode messages
         # to emit: whatever the client sends until it has noticed stays sealed
@@ -236,6 +250,8 @@ def params_list(tier):
     for start in ("fresh", "near-wrap", "ring63"):
         for p in progs:
             if "skick" in p and p[-1] != "skick" or p.count("skick") > 1:
+                continue
+            if "rehello" in p and (p[-1] != "rehello" or p.count("rehello") > 1 or "skick" in p):
                 continue
             if "stream" in p and (start != "ring63" or p.count("stream") > 1 or (tier == "quick" and p[0] != "stream")):
                 continue
